@@ -45,11 +45,13 @@ def gen_tree(rng):
             elif r < 0.5:
                 lines.append("")
             else:
-                owner = rng.choice([name(rng), "@", "", ""]) if rng.random() < 0.9 else name(rng, True)
+                prior = any(l and not l.startswith("$ORIGIN") for l in lines)   # a record or an include came before
+                owner = rng.choice([name(rng), "@", "", ""] if prior or rng.random() < 0.08 else [name(rng), "@"]) \
+                    if rng.random() < 0.9 else name(rng, True)
                 ttl = rng.choice([60, 300, 3600])
                 addr = ".".join(str(rng.randrange(256)) for _ in range(4))
                 lines.append(f"{owner} {ttl} IN A {addr}")
-        if rng.random() < 0.04:
+        if rng.random() < 0.03:
             lines.insert(rng.randrange(len(lines) + 1), "$BOGUS x")
         content[f] = lines
     return content, files[0]
@@ -59,7 +61,7 @@ def gen(rng, tier):
     n = 400 if tier == "quick" else 6000
     for i in range(n):
         content, root = gen_tree(rng)
-        depth = rng.choice([0, 1, 2, 3, 4])
+        depth = rng.choice([0, 1, 2, 2, 3, 3, 4, 4])
         enc = ";".join(f"{p}={'|'.join(l.replace(' ', '~') for l in ls)}" for p, ls in content.items())
         yield f"inc {depth} {root} {enc}"
 
